@@ -22,24 +22,24 @@ REPO = os.environ.get("VERIF_REPO", "/repo")
 # property -> (proof modules, bounded module or None)
 PROPS = {
     "C01": (["geometry", "lemmas"], "c01"),
-    "C02": (["colslice", "rowsel", "indices", "lemmas"], "c02"),
-    "C03": (["colslice", "assign", "indices", "lemmas"], "c03"),
+    "C02": (["colslice", "rowsel", "indices", "derived", "dispatch", "lemmas"], "c02"),
+    "C03": (["colslice", "rowsel", "assign", "indices", "derived", "dispatch", "lemmas"], "c03"),
     "C04": (["ufunc", "lemmas"], "c04"),
     "C05": (["reduce", "lemmas"], "c05"),
-    "C06": (["colslice", "rowsel", "indices", "derived", "lemmas"], "c06"),
+    "C06": (["colslice", "rowsel", "indices", "derived", "dispatch", "frames", "lemmas"], "c06"),
     "C07": (["scans", "lemmas"], "c07"),
-    "C08": (["structural", "lemmas"], "c08"),
+    "C08": (["structural", "geometry", "derived", "lemmas"], "c08"),
     "C09": (["columns", "lemmas"], "c09"),
-    "C10": (["frames"], "c10"),
+    "C10": (["frames", "assign", "ufunc", "derived"], "c10"),
     "C11": (["hashtable"], "c11"),
-    "C12": (["hashtable"], "c12"),
+    "C12": (["hashtable", "geometry"], "c12"),
     "C13": (["bitarray"], "c13"),
     "C14": (["rle"], "c14"),
     "C15": (["rle"], "c15"),
     "C16": (["rle"], "c16"),
     "C17": (["rle2d"], "c17"),
     "C18": (["dataclass"], "c18"),
-    "C19": (["colslice", "rowsel", "indices", "geometry", "width", "lemmas"], "c19"),
+    "C19": (["colslice", "rowsel", "indices", "derived", "geometry", "reduce", "lemmas"], "c19"),
 }
 
 TRUSTED_BASE = [
@@ -68,6 +68,7 @@ def load_families(prop):
 def _proof_task(args):
     prop, fam_name, kind, timeout_ms, config = args
     os.environ["VERIF_REPO"] = REPO
+    os.environ["VERIF_PROPERTY"] = prop
     try:
         from .sym import env
         env.import_repo()
